@@ -585,6 +585,41 @@ def guards_at(body, b):
     return res
 
 
+def path_guards(body, bb, limit=2000):
+    """guards along every acyclic path entry -> bb: [[Guard, ...], ...] (None when there are more than `limit` paths).
+    Unlike guards_at (dominating guards only) this keeps the conditions of arms that were merged by an or-pattern."""
+    gmap = {}
+    for g in edge_guards(body):
+        gmap[(g.block, g.target)] = g
+    can = {bb}
+    work = [bb]
+    while work:
+        x = work.pop()
+        for p_ in body.pred[x]:
+            if p_ not in can and p_ in body.reachable:
+                can.add(p_)
+                work.append(p_)
+    if 0 not in can:
+        return []
+    out = []
+    count = [0]
+
+    def dfs(u, seen, gs):
+        if count[0] > limit:
+            return
+        if u == bb:
+            out.append(list(gs))
+            count[0] += 1
+            return
+        for v in body.succ[u]:
+            if v in seen or v not in can:
+                continue
+            g = gmap.get((u, v))
+            dfs(v, seen | {v}, gs + [g] if g is not None else gs)
+    dfs(0, {0}, [])
+    return None if count[0] > limit else out
+
+
 def switch_enum_variant_names(body, g):
     """for a guard on discr(x): names of the variants selected, using the ADT table"""
     return None
